@@ -66,6 +66,10 @@ class AstToODataVisitor(visitor.NodeVisitor):
         """:meta private:"""
         return "duration'" + node.val + "'"
 
+    def visit_Geography(self, node: ast.Geography) -> str:
+        """:meta private:"""
+        return "geography'" + node.val + "'"
+
     def _visit_Literal(self, node: LiteralValNode) -> str:
         """:meta private:"""
         return node.val
@@ -188,6 +192,10 @@ class AstToODataVisitor(visitor.NodeVisitor):
             + ", ".join(self.visit(n) for n in node.args)
             + ")"
         )
+
+    def visit_NamedParam(self, node: ast.NamedParam) -> str:
+        """:meta private:"""
+        return self.visit(node.name) + "=" + self.visit(node.param)
 
     def visit_Any(self, node: ast.Any) -> str:
         """:meta private:"""
